@@ -626,6 +626,29 @@ _add('C19', 'AS-5')
 _add('C06', 'CC-9', 'CC-10', 'CC-11')
 _add('C05', 'ER-8')
 _add('C20', 'BN-2', 'VW-7', 'VW-8')
+
+
+def _also(pid, text):
+    PROPERTIES[pid].decides = PROPERTIES[pid].decides.rstrip('. ') + '; ' + text
+
+
+_also('C15', 'by abstract interpretation of build() over one mark of each kind: the built graph (nodes, edges, the datum on each edge, '
+             'node map) equals the declared relation, also for input = output; id collisions of nodes and of switches, string '
+             'annotations and the annotations of build_node wrappers (recorded defects)')
+_also('C16', 'by abstract interpretation of build() over single-defect declaration sets: a non-class value in any slot a mark or the '
+             'caller can name is rejected with IncorrectTypeClass before anything else is done with it, every path of build() (traversal, '
+             'single node, input = output) rejects a defective node, valid sets build; the annotation check exempts parameters by kind')
+_also('C17', 'no pool is demanded for a node kind that never fetches it; the generated run method of build_node is picklable by name; '
+             'context propagation into the thread pool, replaceability of a dead pool, fork start method (recorded defects)')
+_also('C20', 'the source link follows the whole chain of generic classes; build_node keeps the documentation of the wrapped method; '
+             'injectivity of the edge id (recorded defect)')
+_also('C18', 'whether the free-text parts of a key are sanitised before they become path components (recorded defect)')
+_also('C19', 'whether the save of a published value can be cancelled by the end of the run (recorded defect)')
+_also('C06', 'no path enumeration, constructor, get_default or inline body on the loop thread (recorded defects)')
+_also('C07', 'writes through networkx graph views into the shared attribute dictionary; the task registry iterates in creation order; '
+             'replaceability of a dead process-wide pool (recorded defect)')
+_also('C08', 'writes through networkx graph views; replaceability of a dead pool and the fork start method (recorded defects)')
+_also('C05', 'the error scan iterates the task registry in creation order')
 EXTRA_GROUPS = {
     # additional rule groups that report under an existing rule id
     'C03': ['st.ready_vs_active_subgraph', 'st.kwargs_hidden_verdict'],
